@@ -698,7 +698,7 @@ def vpls_cases(draw) -> dict:
             text = draw(st.sampled_from(['l2info:256:0:1500:111', 'l2info:19:256:1500:111', 'l2info:19:0:65536:111', 'l2info:19:0:1500:65536', 'l2info:19:0:1500', 'l2info:255:255:65535:65535']))
             rec['attrs']['ext_community'] = [[text, None]]
             fits = True if text.endswith('65535:65535') else False
-        mutation = {'kind': kind, 'field': f, 'what': kind}
+        mutation = {'kind': kind, 'field': f, 'what': {'over-bound': 'value', 'at-bound': 'value', 'l2info': 'l2info-field'}.get(kind, kind)}
     # base + size must stay inside the 20 bit label space (RFC 4761 3.2.1): otherwise the block is not expressible
     if fits is True and isinstance(rec['base'], int) and isinstance(rec['size'], int) and rec['base'] + rec['size'] > 2**20 - 1:
         fits = False
@@ -793,35 +793,53 @@ def flow_cases(draw) -> dict:
             match = [m for m in match if m[0] != kw] + [[kw, f'{kw} {bad}']]
             field, fits = kw, None
         elif kind == 'then-over':
-            then = draw(
+            label, then = draw(
                 st.sampled_from(
                     [
-                        'redirect 65535:4294967296',
-                        'redirect 65536:65536',
-                        'redirect 4294967296:1',
-                        'redirect 4294967295:65536',
-                        'mark 64',
-                        'mark 256',
-                        'rate-limit 4294967296',
-                        'rate-limit 1000000000001',
-                        'rate-limit 340282366920938463463374607431768211456',
-                        'rate-limit 10000000000000000000000000000000000000000 packets',
+                        ('redirect-as2-number', 'redirect 65535:4294967296'),
+                        ('redirect-as4-number', 'redirect 65536:65536'),
+                        ('redirect-asn', 'redirect 4294967296:1'),
+                        ('redirect-as4-number', 'redirect 4294967295:65536'),
+                        ('mark', 'mark 64'),
+                        ('mark', 'mark 256'),
+                        ('rate-limit-clamped', 'rate-limit 4294967296'),
+                        ('rate-limit-clamped', 'rate-limit 1000000000001'),
+                        ('rate-limit-clamped', 'rate-limit 340282366920938463463374607431768211456'),
+                        ('rate-limit-packets', 'rate-limit 10000000000000000000000000000000000000000 packets'),
                     ]
                 )
             )
             then_cl = [[then.split(' ')[0], then]]
             field = then.split(' ')[0]
             # rate-limit above the documented clamp of 10^12 octets/s is clamped with a warning (documented); packets are not
-            fits = None if then.startswith('rate-limit') and not then.endswith('packets') else False
+            fits = None if label == 'rate-limit-clamped' else False
+            mutation = {'kind': kind, 'field': field, 'what': label}
         elif kind == 'then-malformed':
             then = draw(st.sampled_from(['redirect x:1', 'redirect 1:x', 'redirect 1', 'redirect :', 'redirect 1.2.3.999', 'redirect 1.2.3.4:65536', 'mark x', 'mark -1', 'rate-limit x', 'rate-limit -1', 'rate-limit 1.5', 'action drop', 'redirect-to-nexthop-ietf 1.2.3.999', 'copy 1.2.3', 'redirect [2001:db8::1]:65536', 'redirect [2001:db8::1', 'mark', 'rate-limit', 'redirect']))
             then_cl = [[then.split(' ')[0], then]]
             field, fits = then.split(' ')[0], None
         elif kind == 'prefix':
-            bad = draw(st.sampled_from(['10.0.0.0/33', '10.0.0.0', '300.0.0.0/8', '10.0.0/24', '10.0.0.0/x', '10.0.0.0/-1', '2001:db8::/129', '2001:db8::/32/200', '2001:db8::/x']))
+            label, bad = draw(
+                st.sampled_from(
+                    [
+                        ('mask-over', '10.0.0.0/33'),
+                        ('mask-over', '2001:db8::/129'),
+                        ('no-mask', '10.0.0.0'),
+                        ('malformed-address', '300.0.0.0/8'),
+                        ('malformed-address', '10.0.0/24'),
+                        ('malformed-address', '2001:db8::zz/32'),
+                        ('malformed-mask', '10.0.0.0/x'),
+                        ('malformed-mask', '10.0.0.0/-1'),
+                        ('malformed-mask', '2001:db8::/x'),
+                        ('offset-over', '2001:db8::/32/200'),
+                        ('offset-over', '2001:db8::/32/33'),
+                    ]
+                )
+            )
             which = draw(st.sampled_from(['destination', 'source']))
             match = [m for m in match if m[0] not in ('destination', 'source')] + [[which, f'{which} {bad}']]
             field, fits = which, False
+            mutation = {'kind': kind, 'field': field, 'what': label}
         elif kind == 'dropped-value':
             i = draw(st.integers(0, len(match) - 1))
             match[i] = [match[i][0], match[i][0]]
@@ -829,7 +847,7 @@ def flow_cases(draw) -> dict:
         else:
             match.append(['unknown-keyword', draw(st.sampled_from(['bogus 1', 'ttl =5', 'destination-ports =80']))])
             field, fits = 'unknown-keyword', None
-        mutation = {'kind': kind, 'field': field, 'what': kind}
+        mutation = mutation or {'kind': kind, 'field': field, 'what': kind}
     return {
         'entry': draw(st.sampled_from(['api-block', 'api-block', 'api-flat', 'api-legacy', 'family', 'config'])),
         'match': match,
